@@ -2294,3 +2294,18 @@ CONTROLS['C01'] += [
       "            rc for rc in resources if rc.startswith('CUSTOM_')]:\n",
       'R1.10'),
 ]
+CONTROLS['C10'] += [
+    M('c10-refusal-after-the-handler-returned', 'placement/wsgi_wrapper.py',
+      "            super(PlacementWsgify, self).call_func(req, *args, **kwargs)\n",
+      "            super(PlacementWsgify, self).call_func(req, *args, **kwargs)\n"
+      "            if req.response.content_type == 'text/plain':\n"
+      "                raise webob.exc.HTTPNotAcceptable('json only')\n",
+      'R10.9'),
+]
+CONTROLS['C05'] += [
+    M('c05-deadlock-retry-around-the-swap', RP,
+      "@db_api.placement_context_manager.writer\ndef _set_traits(",
+      "@oslo_db_api.wrap_db_retry(max_retries=5, retry_on_deadlock=True)\n"
+      "@db_api.placement_context_manager.writer\ndef _set_traits(",
+      'R5.7'),
+]
